@@ -216,6 +216,29 @@ func init() {
 				}
 			}
 		}
+		// the same selector (one node of the syntax tree) evaluated against values of different struct
+		// types within one render: loop over mixed elements, a function applied to both, a rebound variable
+		{
+			a, v := c11art{"art", []string{"ta"}}, c11vid{7, 60, "vid", []string{"tv"}}
+			extra := map[string]interface{}{"mixed": []interface{}{a, v, &a, &v}, "mixr": []interface{}{v, a}, "ma": a, "mv": v, "mm": map[string]interface{}{"a": a, "v": v}}
+			for _, t := range [][2]string{
+				{`<%= for (x) in mixed { %><%= x.Title %>,<% } %>`, "art,vid,art,vid,"}, {`<%= for (x) in mixr { %><%= x.Title %>,<% } %>`, "vid,art,"},
+				{`<%= for (x) in mixed { %><%= x.Tags[0] %>,<% } %>`, "ta,tv,ta,tv,"}, {`<% let f = fn(x) { return x.Title } %><%= f(ma) %>|<%= f(mv) %>|<%= f(ma) %>`, "art|vid|art"},
+				{`<% let x = mv %><%= for (i) in [0, 1, 2] { %><%= x.Title %>;<% x = mixed[i] %><% } %>`, "vid;art;vid;"}, {`<%= for (k, x) in mm { %><%= k %>=<%= x.Title %>;<% } %>`, "a=art;v=vid;"},
+			} {
+				o := runRenderExtra(RCase{Tmpl: t[0], Binds: binds}, extra)
+				e.rep.Evaluations++
+				e.Count("one-selector-two-types")
+				e.Distinct(t[0])
+				rp := map[string]interface{}{"tmpl": t[0], "observed": o}
+				switch {
+				case o.Class == "PANIC":
+					e.Violate("eval-panic@"+siteOf(o.Msg), fmt.Sprintf("Render panicked on %q: %s", t[0], o.Msg), rp)
+				case o.Class != "OK" || o.Out != t[1]:
+					e.Violate(c11key(t[0], o, o.Out), fmt.Sprintf("%s: Go navigation yields %q, the template rendered %q (%s %s)", t[0], t[1], o.Out, o.Class, firstLine(o.Msg)), rp)
+				}
+			}
+		}
 		// promoted fields of embedded structs: the field Go's selector rules pick, at any depth
 		{
 			ov := c11over{c11mid: c11mid{c11base{Name: "base", Deep: "deep"}}, Name: "outer"}
@@ -308,6 +331,18 @@ func init() {
 			}
 		}
 	})
+}
+
+// two struct types that have a field of the same name at different positions
+type c11art struct {
+	Title string
+	Tags  []string
+}
+type c11vid struct {
+	ID    int
+	Secs  int
+	Title string
+	Tags  []string
 }
 
 // embedded structs: Go resolves a selector to the shallowest field of that name
